@@ -1163,7 +1163,14 @@ class Register(GenericRegister):
             if value._cohdlstd_notify_mode is _NotifyOnWrite:
                 value.notify()
 
-        result = await std.as_awaitable(self._on_write_, type(self)._from_bits_(data))
+        # only the strobed units are written: every other bit is presented
+        # to _on_write_ with the current value of the register
+        mask_bits = mask.as_vector(self._register_tools_._word_width_)
+        merged = mask.apply(self._to_bits_(), data)
+
+        result = await std.as_awaitable(
+            self._on_write_, type(self)._from_bits_(merged)
+        )
 
         if result is None:
             # check that self contains no memory
@@ -1182,7 +1189,10 @@ class Register(GenericRegister):
                 if isinstance(field, (MemField, MemUField, MemSField)):
                     field <<= getattr(result, name)
                 elif isinstance(field, FlagField):
-                    if getattr(result, name).is_set():
+                    if (
+                        getattr(result, name).is_set()
+                        & mask_bits[field._field_arg.offset]
+                    ):
                         field.set()
 
     def _on_read_(self) -> Register:
